@@ -141,9 +141,23 @@ func (b *Backend) Run(op Op) (o Obs) {
 			o.Panic = "Writer returned (nil, nil)"
 			return o
 		}
-		for _, c := range op.Chunks {
+		for ci, c := range op.Chunks {
 			buf := append([]byte{}, c...)
-			n, err := w.Write(buf)
+			// the three standard ways of feeding an io.Writer, chosen as a pure function of the case:
+			// Write, io.Copy from a plain reader (uses the writer's ReadFrom when it has one) and
+			// io.WriteString (uses WriteString when it has one). All must append in call order.
+			var n int
+			var err error
+			switch (len(c) + ci) % 3 {
+			case 0:
+				n, err = w.Write(buf)
+			case 1:
+				var n64 int64
+				n64, err = io.Copy(w, struct{ io.Reader }{bytes.NewReader(buf)})
+				n = int(n64)
+			default:
+				n, err = io.WriteString(w, string(buf))
+			}
 			if op.Scribble {
 				scribble(buf)
 			}
